@@ -62,6 +62,13 @@ class Sched:
                 if self.kill:
                     raise Kill()
                 self.cv.wait(0.2)
+            if ent[3] == "timeout":
+                # the environment lets a timed wait on an empty queue time out (any timed get may, whenever the queue is empty)
+                del self.pending[tid]
+                self.cv.notify_all()
+                import queue as _queue
+
+                raise _queue.Empty()
             # perform the operation atomically under the scheduler lock
             r = q._do(op, payload) if q is not None else None
             if op == "tget":
@@ -92,6 +99,17 @@ class Sched:
             ok = self.cv.wait_for(lambda: tid in self.pending or tid in self.finished, WAIT)
             return ok
 
+    def fire_timeout(self, tid):
+        """let the timed get `tid' is blocked in time out; returns after the thread is pending again or has finished"""
+        with self.cv:
+            ent = self.pending[tid]
+            ent[3] = "timeout"
+            self.cv.notify_all()
+            ok = self.cv.wait_for(lambda: self.pending.get(tid) is not ent, WAIT)
+            if not ok:
+                return False
+        return self.settle(tid)
+
     def grant(self, tid):
         with self.cv:
             ent = self.pending[tid]
@@ -108,6 +126,7 @@ class FakeQueue:
         self.s = sched
         self.name = name
         self.items = []
+        self.timed = False
 
     def _do(self, op, payload):
         if op in ("tput", "rput"):
@@ -123,6 +142,9 @@ class FakeQueue:
         return self.s.yield_op(self.name + "put", self, x)
 
     def get(self, *a, **k):
+        block = a[0] if len(a) > 0 else k.get("block", True)
+        timeout = a[1] if len(a) > 1 else k.get("timeout", None)
+        self.timed = (not block) or (timeout is not None)
         return self.s.yield_op(self.name + "get", self)
 
     def empty(self):
@@ -324,6 +346,7 @@ def run_behaviour(beh):
     }
 
     result = {"ok": True}
+    ntimeouts = [0]
     try:
         for n, step in enumerate(beh["steps"]):
             act, k = step["action"], step.get("k", 0)
@@ -389,6 +412,19 @@ def run_behaviour(beh):
                     diffs["enabled"] = {"impl": off, "spec": step["enabled"]}
             if diffs:
                 return {"ok": False, "step": n, "action": act, "k": k, "why": "state mismatch", "diffs": diffs}
+            # a polling implementation (get with a timeout / non-blocking get) must be indistinguishable from a blocking one: whenever the
+            # parent waits in a timed get on an empty result queue the environment lets the wait time out (twice), and the projected
+            # state must still be the specification's (stuttering)
+            for _ in range(2):
+                if "P" in s.pending and s.pending["P"][0] == "rget" and s.resQ is not None and s.resQ.timed and not s.resQ.items:
+                    ntimeouts[0] += 1
+                    if not s.fire_timeout("P"):
+                        return {"ok": False, "step": n, "action": "Timeout", "why": "parent did not come back from a timed-out get", "impl": project()}
+                    got2 = project()
+                    d2 = {key: {"impl": got2[key], "spec": exp[key]} for key in ("taskQ", "resQ", "w", "pc", "call") if got2[key] != exp[key]}
+                    if d2:
+                        return {"ok": False, "step": n, "action": "Timeout", "k": 0, "why": "state mismatch after a timed-out get (polling is not stutter-invisible)", "diffs": d2}
+        result["timeouts_fired"] = ntimeouts[0]
         return result
     finally:
         with s.cv:
